@@ -33,6 +33,7 @@
 -/
 import PyGqlModel.Spec.SchemaValidSpec
 import PyGqlModel.Props.C12_fixpoint
+import PyGqlModel.Props.C13
 namespace PyGql.Props.C12
 open PyGql PyGql.Sdl PyGql.SdlPrint PyGql.SdlText PyGql.SchemaValid PyGql.SchemaValidSpec PyGql.Generated.SchemaValidTables
 
@@ -325,5 +326,68 @@ theorem valid_implies_printWF (o : SdlPrintT.OptsT) (s full : SchemaD) (rv : Boo
   refine ⟨?_, ?_⟩
   · simp [printTextWF, hdesc, hind, hT.1, hD.1, hq2, hm2, hs2, hne, hops, hu]
   · simp [printBuildWF, hT.2, hD.2, hut, hud, rootsOK, hq1, hm1, hs1, hth, hea, hres]
+
+/-- **valid_roundtrip** — the property for VALID schemas with the exclusions named: the printed text parses, the parsed
+    document builds a schema equal to `s` up to the order of definitions, and re-printing it gives the same text -/
+theorem valid_roundtrip (o : SdlPrintT.OptsT) (s full : SchemaD) (rv : Bool) (hc : Covers s full)
+    (hv : ValidSchema full rv) (hr : printResidual o s = true) :
+    ∃ (d : Ast.Document) (doc : Doc) (s' : SchemaD), parseSdlTextT (SdlPrintT.printSchemaT o s) = some d ∧
+      docToAst doc = some d ∧ build doc = .ok s' ∧ SameUpToOrder s' s ∧
+      SdlPrintT.printSchemaT o s' = SdlPrintT.printSchemaT o s := by
+  obtain ⟨hwf, hb⟩ := valid_implies_printWF o s full rv hc hv hr
+  obtain ⟨d, doc, h1, h2, h3⟩ := text_roundtrip o s hwf (printBuildWF_printOrder s hb)
+  exact ⟨d, doc, printOrder s, h1, h2, h3, ⟨types_perm s, directives_perm s, rfl, rfl, rfl, rfl⟩,
+    printSchemaT_order_independent o s (namesUnique_of_wf o s hwf)⟩
+
+/-! ### the C13 view of a C12 schema; non-vacuity; an excluded VALID schema -/
+
+def specifiedScalars : List TypeD :=
+  ["Int", "Float", "Boolean", "String", "ID"].map fun n => { kind := .scalar, name := n, builtin := true }
+
+/-- the schema with the five specified scalars in its registry (what `Schema.types` holds and C13 validates) -/
+def withSpecified (s : SchemaD) : SchemaD := { s with types := s.types ++ specifiedScalars }
+
+theorem covers_withSpecified (s : SchemaD) : Covers s (withSpecified s) where
+  types_sub := fun t ht => List.mem_append_left _ ht
+  types_rest := fun t ht => by
+    rcases List.mem_append.mp ht with h | h
+    · exact Or.inl h
+    · right
+      simp only [specifiedScalars, List.map_cons, List.map_nil, List.mem_cons, List.mem_nil_iff, or_false] at h
+      rcases h with h | h | h | h | h <;> subst h <;> rfl
+  dirs_sub := fun _ hd => hd
+  query := rfl
+  mutation := rfl
+  subscription := rfl
+
+
+/-- `descShop` / `plainShop` are valid (C13) and none of the exclusions: the theorem applies (`decide` evaluates C13's
+    validator; on `shop` it gets stuck at the derived `BEq J` of the enum-default rule) -/
+example : ValidSchema (withSpecified descShop) := (Props.C13.validate_iff _ true).mp (by decide)
+example : printResidual {} descShop = true := by decide
+example : printTextWF {} descShop = true ∧ printBuildWF descShop = true :=
+  valid_implies_printWF {} descShop (withSpecified descShop) true (covers_withSpecified descShop)
+    ((Props.C13.validate_iff _ true).mp (by decide)) (by decide)
+example : printTextWF {} plainShop = true ∧ printBuildWF plainShop = true :=
+  valid_implies_printWF {} plainShop (withSpecified plainShop) true (covers_withSpecified plainShop)
+    ((Props.C13.validate_iff _ true).mp (by decide)) (by decide)
+example : printResidual {} shop = true := by decide
+
+/-- finding H2 as an exclusion of a VALID schema: `f(i: I = {n: 1})` where `I` has a defaulted field `s` that the default
+    omits (the shape of `h2Schema`, `print_build_roundtrip_needs_NoH2`) -/
+def h2Valid : SchemaD :=
+  { types := [{ kind := .input, name := "I",
+                inputFields := [{ name := "n", type := .named "Int" },
+                                { name := "s", type := .named "String", hasDefault := true, default := .str "dflt" }] },
+              { kind := .object, name := "Query",
+                fields := [{ name := "f", type := .named "Int",
+                             args := [{ name := "i", type := .named "I", hasDefault := true, default := .obj [("n", .num 1)] }] }] }],
+    query := some "Query" }
+
+/-- **h2_valid_but_excluded** — it passes C13's validation (the default conforms "as far as the rule checks") and is outside
+    `printResidual` / `printBuildWF` (only the NoH2 clause `wtB` fails): validity alone does NOT give the round trip, the
+    residual is not redundant -/
+theorem h2_valid_but_excluded : ValidSchema (withSpecified h2Valid) ∧ printResidual {} h2Valid = false ∧ printBuildWF h2Valid = false :=
+  ⟨(Props.C13.validate_iff _ true).mp (by decide), by decide, by decide⟩
 
 end PyGql.Props.C12
